@@ -286,12 +286,20 @@ shape!(S2, (ReadStorage<'a, DA>, ReadStorage<'a, DB>), ["Entities", "A", "B"], [
 shape!(S3, (WriteStorage<'a, DA>, ReadStorage<'a, DB>), ["Entities", "B"], ["A"]);
 shape!(S4, (ReadStorage<'a, DA>, WriteStorage<'a, DB>), ["Entities", "A"], ["B"]);
 shape!(S5, (WriteStorage<'a, DB>, WriteStorage<'a, DC>), ["Entities"], ["B", "C"]);
-shape!(S6, (Entities<'a>, ReadStorage<'a, DC>), ["Entities", "C"], []);
+shape!(S6, (Entities<'a>, ReadStorage<'a, DC>), ["Entities", "C"], [], |d, _m| {
+    // leaves a deferred deletion pending until the maintain that follows the round
+    let e = d.0.create();
+    let _ = d.0.delete(e);
+});
 shape!(S7, (Entities<'a>, WriteStorage<'a, DC>, Read<'a, LazyUpdate>), ["Entities", "Lazy"], ["C"], |d, m| push_lazy(&d.2, m.spin));
 shape!(S8, (WriteStorage<'a, DZ>,), ["Entities"], ["Z"]);
 shape!(S9, (ReadStorage<'a, DZ>,), ["Entities", "Z"], []);
 shape!(S10, (specs::Write<'a, EntitiesRes>,), [], ["Entities"]);
-shape!(S11, (ReadStorage<'a, DB>, ReadStorage<'a, DC>, Entities<'a>), ["Entities", "B", "C"], []);
+shape!(S11, (ReadStorage<'a, DB>, ReadStorage<'a, DC>, Entities<'a>), ["Entities", "B", "C"], [], |d, _m| {
+    let e = d.2.create();
+    let _ = d.2.delete(e);
+    std::hint::black_box((&d.0, &d.1).join().count());
+});
 shape!(S12, (WriteStorage<'a, DF>, ReadStorage<'a, DA>), ["Entities", "A"], ["F"]);
 shape!(S13, (ReadStorage<'a, DF>,), ["Entities", "F"], []);
 shape!(S14, (Read<'a, LazyUpdate>, WriteStorage<'a, DZ>), ["Entities", "Lazy"], ["Z"], |d, m| push_lazy(&d.0, m.spin));
